@@ -480,6 +480,18 @@ func main() {
 			ft := fld.Type
 			mock.Elem().Field(i).Set(reflect.MakeFunc(ft, func(args []reflect.Value) []reflect.Value {
 				rets := make([]reflect.Value, ft.NumOut())
+				if failNext {
+					// the priming call: the implementation answers with its sentinel error object (no message) as the
+					// top-level error of the method
+					failNext = false
+					for o := 0; o < ft.NumOut(); o++ {
+						rets[o] = reflect.Zero(ft.Out(o))
+						if ft.Out(o).Name() == "error" {
+							rets[o] = reflect.ValueOf(sentinelErr).Convert(ft.Out(o))
+						}
+					}
+					return rets
+				}
 				for o := 0; o < ft.NumOut(); o++ {
 					if ft.Out(o).Name() == "error" {
 						rets[o] = reflect.Zero(ft.Out(o))
@@ -534,10 +546,25 @@ func main() {
 		}
 		var rets []reflect.Value
 		var pan any
+		if batchMode == 2 && strings.HasPrefix(gm, "Batch") && row.Cfg.Mount == "bare" {
+			// priming: the same method first fails as a whole with the implementation's sentinel error object, which the
+			// implementation then hands out again as the per-key error of the real call
+			failNext = true
+			func() {
+				defer func() { recover() }()
+				m.Call(args)
+			}()
+			failNext = false
+			*rec = wireRec{}
+		}
 		func() {
 			defer func() { pan = recover() }()
 			rets = m.Call(args)
 		}()
+		if sentinelErr.Message != nil || sentinelErr.Status == nil || *sentinelErr.Status != 404 {
+			violation("C02/implementation-error-object-modified/"+feat, fmt.Sprintf("the error object the implementation keeps and returns again and again was modified by the library: message %v", sentinelErr.Message), cs)
+			sentinelErr = newSentinel()
+		}
 		if pan != nil {
 			violation("C02/client-panic/"+feat, fmt.Sprint(pan), cs)
 			continue
@@ -757,6 +784,16 @@ func lenQuery(rec *wireRec, tunnelled bool) int {
 // 2 = every key fails (no result at all)
 var batchMode int
 
+// the error object an implementation keeps in a package-level variable and returns whenever a key does not exist (no
+// message): as the error of a whole method and as the per-key error of batch methods
+func newSentinel() *common.ErrorResponse {
+	st := int32(404)
+	return &common.ErrorResponse{Status: &st}
+}
+
+var sentinelErr = newSentinel()
+var failNext bool
+
 // scripted builds what the mock resource returns; batch responses are keyed by the keys the resource RECEIVED
 func scripted(g *gen, t reflect.Type, args []reflect.Value) reflect.Value {
 	if t.Kind() == reflect.Ptr && strings.HasPrefix(t.Elem().Name(), "BatchResponse[") {
@@ -780,6 +817,10 @@ func scripted(g *gen, t reflect.Type, args []reflect.Value) reflect.Value {
 			if (batchMode == 0 && i%2 == 0) || batchMode == 1 {
 				results.SetMapIndex(k, g.value(results.Type().Elem(), ""))
 			} else {
+				if batchMode == 2 {
+					errs.SetMapIndex(k, reflect.ValueOf(sentinelErr)) // one shared object, no message
+					continue
+				}
 				st := int32(404)
 				msg := "no such key"
 				errs.SetMapIndex(k, reflect.ValueOf(&common.ErrorResponse{Status: &st, Message: &msg}))
